@@ -102,6 +102,19 @@ def noaddr_history(r, nb):
         b = Block(prev, txs, time=1300000000 + h); blocks.append(b); prev = b.hash
     return blocks, {'no_address_at_all'}
 
+def long_history(r, nb, variant):
+    """a long, thin chain (one coinbase per block, a few spends): byte-identical coinbase transactions - so identical txids - more than 100 and more than 200 blocks apart,
+    the earlier one still unspent / already spent when the later one appears, and the re-created output spent later together with a young one"""
+    blocks = []; prev = b'\x00' * 32; cb = {}
+    dups = {104 + variant: 3, 150: 7, 205 + variant: 50}
+    for h in range(nb):
+        t = cb[dups[h]] if h in dups and dups[h] in cb else coinbase_tx(h, [(50 * 10**8 + h, P2PKH(bytes([h % 251 + 1]) * 20))], extra=gen.rb(r, 2)); cb[h] = t; txs = [t]
+        if h == 60: txs.append(Tx([(cb[50].txid, 0, b'', 0)], [(7, P2PKH(b'\xee' * 20))]))                                   # the first copy of the coinbase of block 50 is spent long before its twin appears
+        if h == 160: txs.append(Tx([(cb[7].txid, 0, b'', 0), (cb[159].txid, 0, b'', 0)], [(9, P2PKH(b'\xef' * 20))]))       # the re-created output (heights 7 and 150) is spent together with a young one
+        if h % 37 == 5 and h > 5: txs.append(Tx([(cb[h - 4].txid, 0, b'', 0)], [(h, P2PKH(gen.rb(r, 20))), (1, b'\x6a\x01x')]))
+        b = Block(prev, txs, time=1300000000 + h); blocks.append(b); prev = b.hash
+    return blocks, {'long_chain', 'duplicate_txid_100+_blocks_apart'}
+
 def make_cases(ck, n, few=False):
     r = ck.rng; cases = []
     for i in range(n):
@@ -110,8 +123,10 @@ def make_cases(ck, n, few=False):
         if i % 10 == 7: nb = 2; tags.add('wide_blocks')
         if i % 10 == 4: blocks, tags = refund_history(r, i // 10); nb = len(blocks)
         if i % 10 == 9 and i < 20: blocks, tags = noaddr_history(r, nb)
+        if i % 10 == 2 and i < 20: nb = [212, 108][i // 10]; blocks, tags = long_history(r, nb, i // 10)
         c = Case(('b' if few else 'u') + str(i), coin).simple_layout(blocks)
-        if i % 3 == 2 and 'refund' not in tags: c.start = r.randrange(0, nb); c.end = r.choice([None, r.randrange(c.start + 1, nb + 1)]); tags.add('range')
+        if 'long_chain' in tags: c.start = i // 10
+        elif i % 3 == 2 and 'refund' not in tags: c.start = r.randrange(0, nb); c.end = r.choice([None, r.randrange(c.start + 1, nb + 1)]); tags.add('range')
         if i % 10 == 6 and 'refund' not in tags:
             # the same history indexed at heights around 2^32 (creation heights are 64-bit in the dump)
             H0 = 2**32 - 2; c = Case(c.id, coin).simple_layout(blocks, start_height=H0); c.start = H0 + (1 if nb > 2 else 0); c.end = None; tags.add('heights>=2^32')
@@ -143,7 +158,7 @@ def small_histories(r, limit):
 def explore(ck, cb='unspent', few=False):
     r = ck.rng; quick = ck.tier == 'quick'
     ck.rule = ('random spend histories (fan-in/out, same-block spends, forward references to outputs of later transactions, several inputs on one tx, blocks of 36..47 transactions in arbitrary order, the null outpoint as first of several inputs, transactions with over-long CompactSize encodings that are spent later, sweeps of all outputs of one transaction by consecutive inputs (address-less output first), unknown outpoints (random, and near misses of live ones: txid equal in 16 bytes or all but one bit, same index), double references, '
-               'address-less outputs of every kind, ranges without any address-bearing output (header-only dump), spend-to-empty / refund / brand-new-address sequences, zero values, duplicate coinbase txids at different heights, > 255 outputs) x ranges (also at heights around 2^32, and as the second of two legs dumped into one folder) x 8 coins, plus bounded-exhaustive two-block histories over a '
+               'address-less outputs of every kind, ranges without any address-bearing output (header-only dump), spend-to-empty / refund / brand-new-address sequences, zero values, chains of 108 / 212 blocks with identical txids more than 100 and 200 blocks apart (earlier copy unspent / spent / re-created output spent with a young one), duplicate coinbase txids at different heights, > 255 outputs) x ranges (also at heights around 2^32, and as the second of two legs dumped into one folder) x 8 coins, plus bounded-exhaustive two-block histories over a '
                'fixed outpoint pool; the row set of the dump is compared with the model and with the property\'s definition evaluated over the csvdump rows. '
                'Non-trivial: >= 1 in-range spend of an in-range output; distinct by history.')
     cases = make_cases(ck, 30 if quick else 250, few=few)
